@@ -37,10 +37,10 @@ fn main() {
             "the harness profile has overflow-checks and debug-assertions on: an arithmetic overflow inside the parser is observed as a panic",
         ],
         parts: vec![
-            PropPart::new("soup", 600_000, 6_000_000, soup::strategy, soup::check).boxed(),
-            PropPart::new("trees", 150_000, 3_000_000, trees::strategy, trees::check).boxed(),
+            PropPart::new("soup", 600_000, 4_000_000, soup::strategy, soup::check).boxed(),
+            PropPart::new("trees", 150_000, 2_000_000, trees::strategy, trees::check).boxed(),
             Box::new(nest::part()),
-            PropPart::new("stmts", 2_000, 40_000, stmts::strategy, stmts::check).shrink_iters(800).boxed(),
+            PropPart::new("stmts", 2_000, 30_000, stmts::strategy, stmts::check).shrink_iters(800).boxed(),
             Box::new(fuzzpart::corpus_part()),
             Box::new(fuzzpart::fuzz_part()),
         ],
